@@ -232,6 +232,20 @@ CHECKS['C10'] = dict(
     technique='symbolic execution of the Python source + Z3 per path (one step from a symbolic coherent state); concrete history sampling for corrective paths',
 )
 
+CHECKS['C16'] = dict(
+    level='model_checking',
+    text='One growth iteration of the real generalGenerateTree / findPathGeneral from a 2-node tree with symbolic node positions (on a line), an '
+         'ARBITRARY sample (generator stub), an ARBITRARY collision predicate and an ARBITRARY positive symmetric distance function (fresh '
+         'symbolic value per pair): on every path exactly one node is added under a node of the previous tree, existing nodes keep parent and '
+         'cost, stored cost = parent cost + distance, the parent link was reported collision-free, the accepted sample lies within [min, max] of '
+         'its then-nearest node (independent brute-force search), the parent is the cheapest collision-free candidate examined; path extraction '
+         'on 3-node trees starts at the root, follows parent links, ends with the goal and leaves the tree at the node nearest the goal. The '
+         'R-tree is an exact in-memory double. Whole randomised runs (boxes, terrain, budgets, modes, callbacks) with the real R-tree: '
+         'concrete sampling, insertion order replayed against brute-force nearest neighbours.',
+    design='5/C16',
+    technique='symbolic execution of the Python source + Z3 per path (one inductive step, all paths); concrete whole-run sampling',
+)
+
 NOT_APPLICABLE = {
 }
 
